@@ -77,6 +77,18 @@ def run(ctx):
             v = n.value
             if isinstance(v, ast.Attribute) and v.attr == 'data':
                 DN.add(n.targets[0].id)
+    changed = True
+    while changed:      # copies / sorted versions of a bucket's data are data names too
+        changed = False
+        for n in A.walk_local(fn):
+            if isinstance(n, ast.Assign) and len(n.targets) == 1 and isinstance(n.targets[0], ast.Name) \
+                    and n.targets[0].id not in DN:
+                v = n.value
+                if (isinstance(v, ast.Name) and v.id in DN) or (
+                        isinstance(v, ast.Call) and A.dotted(v.func) == 'sorted' and v.args
+                        and isinstance(v.args[0], ast.Name) and v.args[0].id in DN):
+                    DN.add(n.targets[0].id)
+                    changed = True
     if not DN:
         raise AnalysisError('undecidable shape: no variable holds the data of a bucket')
 
@@ -311,12 +323,17 @@ def run(ctx):
                     and isinstance(n.targets[0], ast.Name):
                 cand = n.targets[0].id
         ok9 = False
-        for n in A.walk_local(ass.node):
-            if isinstance(n, ast.Compare) and any(A.is_self_attr(x, 'max_total_size') for x in ast.walk(n)):
-                names = {x.id for x in ast.walk(n) if isinstance(x, ast.Name)}
-                attrs = {x.attr for x in ast.walk(n) if isinstance(x, ast.Attribute) and A.is_name(x.value, 'self')}
+        for n0 in A.walk_local(ass.node):
+            if isinstance(n0, ast.Compare) and any(A.is_self_attr(x, 'max_total_size') for x in ast.walk(n0)):
+                n = n0
+                ne = flow.expand(n0, ass.node)
+                # the candidate's length may itself be a named intermediate: keep it as a name
+                names = {x.id for x in ast.walk(n0) if isinstance(x, ast.Name)} | {x.id for x in ast.walk(ne) if isinstance(x, ast.Name)}
+                if any(isinstance(x, ast.Call) and A.is_self_attr(x.func, 'len_key') for x in ast.walk(ne)):
+                    names.add(cand)
+                attrs = {x.attr for x in ast.walk(ne) if isinstance(x, ast.Attribute) and A.is_name(x.value, 'self')}
                 if cand in names and 'max_len' in attrs and 'data' in attrs and any(
-                        isinstance(x, ast.Call) and A.dotted(x.func) == 'max' for x in ast.walk(n)):
+                        isinstance(x, ast.Call) and A.dotted(x.func) == 'max' for x in ast.walk(ne)):
                     # exceeding -> refuse
                     par = n
                     while not isinstance(par, (ast.If, ast.Return)) and A.parent(par) is not None:
@@ -376,11 +393,19 @@ def run(ctx):
     ma = db.own('maybe_append').node
     ok = any(isinstance(n, ast.Assert) and 'is_completed' in A.src(n.test) and A.strip_not(n.test)[1] for n in ma.body)
     ok2 = False
-    for n in A.walk_local(ma):
-        if isinstance(n, ast.If) and isinstance(n.test, ast.Call) and A.dotted(n.test.func) == 'self.assess':
-            ok2 = any(isinstance(s, ast.Expr) and isinstance(s.value, ast.Call) and A.dotted(s.value.func) == 'self._append'
-                      for s in n.body) and any(isinstance(s, ast.Return) and A.is_const(s.value, True) for s in n.body) \
-                and isinstance(ma.body[-1], ast.Return) and A.is_const(ma.body[-1].value, False)
+    app_calls = [n for n in A.walk_local(ma) if isinstance(n, ast.Call) and A.dotted(n.func) == 'self._append']
+
+    def assess_cond(node):
+        for t, truth in flow.guards_of(node, ma):
+            tt, neg = A.strip_not(t)
+            if isinstance(tt, ast.Call) and A.dotted(tt.func) == 'self.assess':
+                return truth != neg
+        return None
+    if len(app_calls) == 1 and assess_cond(app_calls[0]) is True:
+        rets_ma = [r for r in flow.returns_of(ma) if r.value is not None]
+        t_ok = [r for r in rets_ma if A.is_const(r.value, True) and assess_cond(r) is True]
+        f_ok = [r for r in rets_ma if A.is_const(r.value, False) and assess_cond(r) is False]
+        ok2 = len(t_ok) == 1 and len(f_ok) == 1 and len(rets_ma) == 2
     rep.ob('P5', K.key(db, 'maybe_append', 'appends-iff-assess-and-reports-it'), ok and ok2, ma,
            '' if ok and ok2 else 'maybe_append must refuse completed buckets, append exactly when assess() accepts and '
            'return whether it appended')
@@ -404,5 +429,5 @@ def run(ctx):
         rep.ob('P2', K.key(cls, '__iter__', 'yields-the-whole-bucket'), ok, y, '' if ok else 'a yield emits %s' % A.short(y.value))
     srt = [n for n in A.walk_local(fn) if isinstance(n, ast.Assign) and isinstance(n.value, ast.Call)
            and A.dotted(n.value.func) == 'sorted']
-    ok = all(is_data(n.targets[0]) and n.value.args and A.is_name(n.value.args[0], n.targets[0].id) for n in srt)
+    ok = all(is_data(n.targets[0]) and n.value.args and is_data(n.value.args[0]) for n in srt)
     rep.ob('P2', K.key(cls, '__iter__', 'sorting-preserves-the-multiset'), ok, srt[0] if srt else fn, '')
